@@ -610,32 +610,3 @@ Example wf_example :
   search max_entry_size buffer_size (run c ops) (Build_params None 2 1 0 []) =
     Ok [e 4%N 40; e 3%N 30] 30.
 Proof. vm_compute. repeat split; intros; discriminate. Qed.
-
-(** ** Scan windows (maxFileScanEntries) and the continuation cursor *)
-
-(** What cursor paging needs from a response that reports the end of the log
-    (oldest = 0, the empty string in the JSON): nothing that the request
-    could still show lies beyond the page. *)
-Definition scan_window_end_statement : Prop :=
-  forall me bf s p es, 0 < me <= bf -> wf me s ->
-    0 < p_limit p -> p_offset p = 0 ->
-    search me bf s p = Ok es 0 -> es = vis s p.
-
-(** It does not hold for the code as it is: a record dropped as ignored
-    reports stamp 0, so when it is the last one scanned of an exhausted window
-    the response says "end of log".  Witness: querylog.json = [e1 example.org;
-    e2 ignored.example], ignore list = {ignored.example}, window 1, limit 1:
-    the response is empty with oldest = 0 although e1 is visible. *)
-Lemma scan_window_end_refuted : ~ scan_window_end_statement.
-Proof.
-  intro H.
-  set (e1 := Build_entry 1 10 100 [97%N] [49%N] [] 0 false).
-  set (e2 := Build_entry 2 20 100 [105%N] [49%N] [] 0 false).
-  set (s := {| cfg := Build_config true true 2 [[105%N]] []; buf := []; cur := Some [e1; e2]; rot := None |}).
-  set (p := Build_params None 1 0 1 []).
-  specialize (H max_entry_size buffer_size s p [] go_consts_ok).
-  assert (Hwf : wf max_entry_size s).
-  { split; [exists 0; cbn; lia|]. repeat constructor; cbn; lia. }
-  specialize (H Hwf ltac:(cbn; lia) eq_refl ltac:(vm_compute; reflexivity)).
-  vm_compute in H. discriminate.
-Qed.
